@@ -373,6 +373,27 @@ func checkC04Numeric(c *Ctx) {
 		strs = append(strs, s)
 	}
 	flush()
+	// very long digit strings (hundreds to thousands of digits before or after the point, brought
+	// back into range by the exponent): the value is still the correctly rounded double
+	for _, n := range []int{300, 700, 799, 800, 801, 802, 850, 1000, 1600, 3000} {
+		zeros := strings.Repeat("0", n)
+		rd := func(k int) string {
+			b := make([]byte, k)
+			for i := range b {
+				b[i] = byte('0' + rng.Intn(10))
+			}
+			if b[0] == '0' {
+				b[0] = '7'
+			}
+			return string(b)
+		}
+		strs = append(strs,
+			"1"+zeros+fmt.Sprintf("*10^-%d", n), "3"+zeros+fmt.Sprintf("e-%d", n), "-1"+zeros+fmt.Sprintf("*^-%d", n), "+25"+zeros+fmt.Sprintf("E-%d", n+1),
+			rd(n)+fmt.Sprintf("e-%d", n-3), rd(n)+"."+rd(40)+fmt.Sprintf("E-%d", n-17), rd(n)+fmt.Sprintf("*10^-%d", n+300),
+			"0."+zeros+"1"+fmt.Sprintf("e+%d", n+1), "0."+zeros+rd(30)+fmt.Sprintf("*10^+%d", n+5), rd(5)+"."+rd(n)+"e+2",
+			"137975"+zeros+"."+strings.Repeat("0", 26)+fmt.Sprintf("E-%d", n-2))
+	}
+	flush()
 }
 
 func judgeNumeric(c *Ctx, strs []string) {
@@ -798,7 +819,7 @@ func tokDesc(ts []Tok) string {
 }
 
 func checkC04(c *Ctx) {
-	c.rule = "(1) alphabet: IdInRange for every code point in [-70000, 0x110400) against a linear scan of the range table (hook H6), table sortedness, lexer agreement on lone characters; (2) numeric form: every string up to length 5 (quick) / 7 (thorough) over {0,1,7,+,-,.,e,E,*,^,x}, every live prefix of a valid number x every suffix up to length 3, random long mutated numbers: classification number / rejected / name by the documented form (anchored regexp) and value = correctly rounded double via math/big; (3) segmentation: random token sequences (34 keywords, names over CJK/Latin/Greek/kana/hangul with embedded + - * / . % _ and stray keyword glyphs, backtick names containing keywords, numbers, operators, both punctuation forms, literals, comments) rendered with the fewest blanks the rules require must tokenise to exactly that sequence with in-bounds non-overlapping spans; dense unspaced strings over keyword glyphs against a leftmost-greedy segmenter. distinct_nontrivial = table entries + distinct (class, digit-collapsed shape) of numeric strings + distinct (token-kind sequence, source prefix)"
+	c.rule = "(1) alphabet: IdInRange for every code point in [-70000, 0x110400) against a linear scan of the range table (hook H6), table sortedness, lexer agreement on lone characters; (2) numeric form: every string up to length 5 (quick) / 7 (thorough) over {0,1,7,+,-,.,e,E,*,^,x}, every live prefix of a valid number x every suffix up to length 3, random long mutated numbers, digit strings of 300 … 3000 digits before / after the point brought back into range by the exponent: classification number / rejected / name by the documented form (anchored regexp) and value = correctly rounded double via math/big; (3) segmentation: random token sequences (34 keywords, names over CJK/Latin/Greek/kana/hangul with embedded + - * / . % _ and stray keyword glyphs, backtick names containing keywords, numbers, operators, both punctuation forms, literals, comments) rendered with the fewest blanks the rules require must tokenise to exactly that sequence with in-bounds non-overlapping spans; dense unspaced strings over keyword glyphs against a leftmost-greedy segmenter. distinct_nontrivial = table entries + distinct (class, digit-collapsed shape) of numeric strings + distinct (token-kind sequence, source prefix)"
 	c.assumptions = []string{"keyword spellings and token type codes are transcribed from the manual / public constants", "'.12'-style strings are not asserted", "alphabet monitor is exhaustive over all code points; lexer agreement is sampled in quick and BMP-exhaustive in thorough"}
 	checkC04Alphabet(c)
 	checkC04Numeric(c)
